@@ -130,7 +130,7 @@ func runC12(r *Run) {
 	// entrance is answered with a committed header only when the requested height lies before the
 	// mirror's committing view (and the mirror forwards views only at or above it, C11).
 	if fn := w.Fn("tmi.Kernel.handleStateMachineRoundEntrance"); fn != nil {
-		a := w.A(fn)
+		a := w.AU(fn)
 		n := 0
 		for _, sd := range a.Sends() {
 			v := a.sh.Of(sd.Val).String()
@@ -209,7 +209,7 @@ func runC12(r *Run) {
 		r.Fail("C12.4", "anchor", "", "StandardRoundTimer.background not found")
 		return
 	}
-	a := w.A(bg)
+	a := w.AU(bg)
 	var sels []*ssa.Select
 	a.Instrs(func(in ssa.Instruction) {
 		if s, ok := in.(*ssa.Select); ok {
@@ -521,7 +521,7 @@ func runC08(r *Run) {
 		r.Check(a.sh.Of(CallArg(c.Instr, 3)).String() == "p3", "C08.3", con+"(view)", w.InstrPos(c.Instr), "the committed view is the one whose summary was tested")
 	}
 	if fn := w.Fn("tsi.GetStepFromVoteSummary"); fn != nil {
-		a := w.A(fn)
+		a := w.AU(fn)
 		for i, ret := range a.ReturnsOf(0, "%tsi.StepCommitWait") {
 			r.RequireGuards(a, "C08.3", fmt.Sprintf("tsi.GetStepFromVoteSummary#commit-wait%d", i+1), ret,
 				G{Name: "majority", Pattern: "(p0.PrecommitBlockPower[p0.MostVotedPrecommitHash] < @tmconsensus.ByzantineMajority(p0.AvailablePower))", Holds: false})
@@ -536,9 +536,13 @@ func runC08(r *Run) {
 				continue
 			}
 			con := ord.Next(FuncName(fn) + "#finalize-request")
+			owner := w.OwnerIn(fn, func(n string) bool { return okSenders[n] }) // a helper split off from its only caller counts as that caller
+			if owner != fn {
+				a = w.AU(owner)
+			}
 			v := a.sh.Of(s.Val).String()
-			ok := okSenders[FuncName(fn)]
-			switch FuncName(fn) {
+			ok := okSenders[FuncName(owner)]
+			switch FuncName(owner) {
 			case "tmstate.StateMachine.beginCommit", "tmstate.StateMachine.handleCommitWaitViewUpdate":
 				// header = ProposedHeaders[IndexFunc(..., closure comparing with MostVotedPrecommitHash)] with idx >= 0
 				ok = ok && strings.Contains(v, "Header:p3.RoundView.ProposedHeaders[@slices.IndexFunc(p3.RoundView.ProposedHeaders,closure:") && strings.Contains(v, "Round:p3.RoundView.Round") && strings.Contains(v, "Resp:p2.FinalizeRespCh")
@@ -632,7 +636,7 @@ func runC08(r *Run) {
 	}
 	// the finalization stored is the driver's answer for the current height and round
 	if fn := w.Fn("tmstate.StateMachine.handleFinalization"); fn != nil {
-		a := w.A(fn)
+		a := w.AU(fn)
 		for i, c := range a.CallsTo("tmstore.FinalizationStore.SaveFinalization") {
 			hs := a.sh.Of(CallArg(c, 2)).String()
 			rs := a.sh.Of(CallArg(c, 3)).String()
@@ -658,7 +662,7 @@ func runC08(r *Run) {
 				r.Fail("C08.7", cn.fn, "", "not found")
 				continue
 			}
-			ca := w.A(cf)
+			ca := w.AU(cf)
 			si := ca.SwitchOn(cn.subject)
 			panics := ca.CasePanics(cn.subject)
 			for _, s := range steps {
@@ -666,7 +670,7 @@ func runC08(r *Run) {
 				ok := (si.Handled[s] && !panics[s]) || (!si.Handled[s] && !si.DefaultPanics)
 				// startInitialTimer is reached with the step beginRoundLive stored, i.e. only steps that survived its switch
 				if cn.fn == "tmstate.StateMachine.startInitialTimer" && !ok {
-					bl := w.A(w.Fn("tmstate.StateMachine.beginRoundLive"))
+					bl := w.AU(w.Fn("tmstate.StateMachine.beginRoundLive"))
 					bsi := bl.SwitchOn("@tsi.GetStepFromVoteSummary($...)")
 					if !bsi.Handled[s] && bsi.DefaultPanics {
 						r.Pass("C08.7", con, w.Pos(cf.Pos()), "unreachable here: the round-begin switch already panics for this step (reported there)")
